@@ -348,6 +348,8 @@ func c01Literals() []string {
 		b.WriteString("}\n")
 		progs = append(progs, b.String())
 	}
+	// strings that look like templates of other languages are plain text
+	progs = append(progs, "var x = 5\nvar name = \"n\"\ndef b {\n y = 1\n f = \"${x}\"\n g = \"a${name}b$x\"\n h = \"#{x} {{x}} $(x) %{x} {x} \\\\(x) ${} ${y} ${zz}\"\n print f + g + h\n print \"${x}\" == \"$\" + \"{x}\"\n}\n")
 	// ints: every length 1..19 in decimal, 1..16 in hex, 1..21 in octal, around the powers of two and ten
 	var ints []string
 	for n := 1; n <= 19; n++ {
